@@ -341,6 +341,11 @@ def one_value_edit(var, rng, name):
         lo, hi = flat[finite].min(), flat[finite].max()
         flat[k] = flat[k] + 1 if flat[k] + 1 <= hi or lo == hi else flat[k] - 1
         return flat.reshape(vals.shape)
+    if vals.dtype.kind in 'iu' and flat.size:
+        # integer-typed coordinate variable (whole degrees): one value moved by one
+        k = int(rng.integers(flat.size))
+        flat[k] = flat[k] + 1
+        return flat.reshape(vals.shape)
     if vals.dtype.kind != 'f':
         return None
     finite = numpy.flatnonzero(numpy.isfinite(flat))
